@@ -18,7 +18,9 @@ RULE = ('files of 1-12 ATOM records generated field by field (serial 1-5 digits/
         'numeric fields, blank chain+segID. Non-trivial: the file carries at least one discriminating feature tag '
         '(anything beyond plain right-aligned canonical fields).')
 
-FORMS = ['path', 'Path', 'str', 'bytes', 'list_str', 'list_bytes', 'ndarray_str', 'ndarray_bytes']
+FORMS = ['path', 'Path', 'str', 'bytes', 'list_str', 'list_bytes', 'ndarray_str', 'ndarray_bytes',
+         'ndarray_object_str', 'ndarray_object_bytes']        # object-dtype arrays (h5py variable-length strings)
+MODEL_FORM = {'ndarray_object_str': 'ndarray_str', 'ndarray_object_bytes': 'ndarray_bytes'}
 
 def canon_val(v):
     if isinstance(v, bool):
@@ -59,6 +61,10 @@ def make_input(form, lines, trailing_nl, keep_nl, scratch, k):
         return np.array(ls), ('lines', ls)
     if form == 'ndarray_bytes':
         return np.array([l.encode() for l in ls]), ('lines', ls)
+    if form == 'ndarray_object_str':
+        return np.array(ls, dtype=object), ('lines', ls)
+    if form == 'ndarray_object_bytes':
+        return np.array([l.encode() for l in ls], dtype=object), ('lines', ls)
     raise ValueError(form)
 
 def run_impl(pdb2sql, inp):
@@ -71,6 +77,11 @@ def run_impl(pdb2sql, inp):
         nmodel = db._nModel
         if nmodel > 0:
             rows = [r for m in rows for r in m]
+        else:
+            # "one row per record, in input order" must also be what the narrow queries show
+            rid, ch = db.get('rowID'), db.get('chainID')
+            if rid != list(range(len(rows))) or ch != [r[4] for r in rows]:
+                return ['OK', ['row order seen through get(rowID)/get(chainID) differs from get(*)', rid[:6], ch[:6]]]
         return ['OK', [canon_rows(rows), nmodel]]
     except Exception as e:
         return ['ERR', 'get:' + exc_class(e)]
@@ -86,6 +97,8 @@ def one_case(rng, k, malformed_rate):
     lines = gen_pdb.gen_file_lines(rng, feats, n, malformed)
     form = FORMS[k % len(FORMS)] if rng.random() < 0.8 else rng.choice(FORMS)
     case = {'form': form, 'lines': lines, 'trailing_nl': rng.random() < 0.6, 'keep_nl': rng.random() < 0.5}
+    if form in ('path', 'Path') and rng.random() < 0.3:
+        case['stale_first'] = True; feats.add('file-name-reused-same-size-and-mtime')
     feats.add('form-' + form)
     return case, feats
 
@@ -95,12 +108,26 @@ def evaluate(ctx, pdb2sql, cases):
     impls = []
     for k, case in enumerate(cases):
         inp, (kind, payload) = make_input(case['form'], case['lines'], case['trailing_nl'], case['keep_nl'], ctx.scratch, k)
+        if case.get('stale_first') and case['form'] in ('path', 'Path'):
+            # the same file name held ANOTHER text of the same size a moment ago (and was parsed), and the file's
+            # modification time is the same (cp -p, rsync -t): what is read must be the text that is there now
+            alt = payload.translate(str.maketrans('1234', '2143'))
+            with open(str(inp), 'w') as f:
+                f.write(alt)
+            st = os.stat(str(inp))
+            try:
+                pdb2sql.pdb2sql(inp)._close()
+            except Exception:
+                pass
+            with open(str(inp), 'w') as f:
+                f.write(payload)
+            os.utime(str(inp), ns=(st.st_atime_ns, st.st_mtime_ns))
         impls.append(run_impl(pdb2sql, inp))
         if kind == 'text':
-            reqs.append(['parse.text', case['form'], payload])
+            reqs.append(['parse.text', MODEL_FORM.get(case['form'], case['form']), payload])
             reqs.append(['spec.parse.table', payload.split('\n')])
         else:
-            reqs.append(['parse.lines', case['form'], payload])
+            reqs.append(['parse.lines', MODEL_FORM.get(case['form'], case['form']), payload])
             reqs.append(['spec.parse.table', payload])
         if kind == 'text' and case['form'] in ('path', 'Path'):
             try:
